@@ -980,6 +980,11 @@ fn node_shrinks(n: &Node) -> Vec<Node> {
                 }
             }
         }
+        Node::Array(xs) if xs.len() > 12 => {
+            out.push(Node::Scalar(Tree::Int(0)));
+            out.push(Node::Array(xs[..xs.len() / 2].to_vec()));
+            out.push(Node::Array(xs[xs.len() / 2..].to_vec()));
+        }
         Node::Array(xs) => {
             out.push(Node::Scalar(Tree::Int(0)));
             for i in 0..xs.len() {
@@ -1030,6 +1035,14 @@ fn node_shrinks(n: &Node) -> Vec<Node> {
 
 fn entries_shrinks(kvs: &[(String, Node)]) -> Vec<Vec<(String, Node)>> {
     let mut out = Vec::new();
+    if kvs.len() > 12 {
+        // long bodies: halves and ends only
+        out.push(kvs[..kvs.len() / 2].to_vec());
+        out.push(kvs[kvs.len() / 2..].to_vec());
+        out.push(kvs[..kvs.len() - 1].to_vec());
+        out.push(kvs[1..].to_vec());
+        return out;
+    }
     for i in 0..kvs.len() {
         let mut c = kvs.to_vec();
         c.remove(i);
